@@ -113,7 +113,7 @@ Fixpoint walk (cfg : config) (s : sys) (g : ghost) (ipool : list (N * N * msg))
       let touched :=
         match o with
         | GElect i | GPreVote i | GRequestVotes i | GHeartbeat i | GRestart i => i
-        | GPropose i _ _ => i
+        | GPropose i _ _ | GTimeoutNow i _ => i
         | GDeliver k _ => match nth_error ipool (N.to_nat k) with Some (_, dst, _) => dst | None => 0 end
         end in
       match oracle_step g touched ob with
